@@ -555,6 +555,13 @@ def _expm1_case(ex, term, f, w, bits):
         raise Mismatch('the result is not S A(u) + B')
     d_, a_, b_ = ds[0], ns[1], ns.get(0, {})
     if RFN.p_add(b_, d_) != {}:
+        # 2^K A(u) + c with a constant c != -1 is a recognisable WRONG function (expm1 tends to -1 as 2^K -> 0), not an
+        # unknown shape: a verdict, not a template mismatch
+        m0 = sorted(d_)[0] if d_ else None
+        if m0 is not None and m0 in b_ and RFN.p_add(b_, d_, -(b_[m0] / d_[m0])) == {}:
+            cc = b_[m0] / d_[m0]
+            return {'ulp_exact': Fr(10 ** 9), 'ulp': float('inf'), 'kernel_rel_err': 1.0, 'const_rel_err': 0.0, 'cody_waite_ulp': 0.0, 'cody_waite_site': None,
+                    'why': 'the value is 2^K A(u) + c with c = %s on this select case: expm1 needs c = -1 (the result is off by %s)' % (cc, cc + 1)}
         raise Mismatch('the additive term is not -1')
     A = RFN.RF(a_, d_)
     cx, ck = A.num.get(((X, 1),)), A.num.get(((K, 1),))
@@ -931,8 +938,8 @@ def run_for(pid, bits, a):
                     continue
                 if st == 'bad':
                     cw = (' -- of which %.3g ulp because the separately rounded product k*%.9g of the argument reduction is not exact (Cody-Waite needs a short leading constant when the multiply is not fused)' % (d['cody_waite_ulp'], d['cody_waite_site'])) if d.get('cody_waite_ulp', 0) > 1 else ''
-                    r.violation(key, 'method error of the kernel is %.3g ulp on its reduced domain (approximation %.3g, reduction constants %.3g relative)%s: above the property bound %s ulp plus %s ulp rounding allowance' % (
-                        d['ulp'], d['kernel_rel_err'], d['const_rel_err'], cw, float(BOUND_ULP), float(ROUNDING_ALLOWANCE_ULP)), dict(d, obligation=key))
+                    r.violation(key, 'method error of the kernel is %.3g ulp on its reduced domain (approximation %.3g, reduction constants %.3g relative)%s%s: above the property bound %s ulp plus %s ulp rounding allowance' % (
+                        d['ulp'], d['kernel_rel_err'], d['const_rel_err'], cw, (' -- ' + d['why']) if d.get('why') else '', float(BOUND_ULP), float(ROUNDING_ALLOWANCE_ULP)), dict(d, obligation=key))
     want = sum(1 for c in cfgs for f in FUNCS if applicable(f[0], bits, c)) + (len(TRIG) + len(INV) + 1 + len(ERFC) + 5 + sum(1 for f_ in DIRF if bits in DIRF[f_])) * len(cfgs)
     if npaths < 20 * len(cfgs) and not r.broken:
         r.broke('path-agreement clause compared only %d cells' % npaths)
